@@ -19,6 +19,7 @@ import (
 	"encoding/json"
 	"fmt"
 	"os"
+	"path/filepath"
 	"runtime"
 	"strings"
 	"sync"
@@ -45,7 +46,7 @@ type verifOpts struct {
 }
 
 type verifEvent struct {
-	K    string `json:"k"` // msg | hup | term | sleep | settle
+	K    string `json:"k"` // msg | hup | term | sleep | settle | touch
 	ID   int    `json:"id,omitempty"`
 	Body string `json:"body_b64,omitempty"`
 	Ms   int    `json:"ms,omitempty"`
@@ -242,6 +243,19 @@ func verifRunScript() {
 			gone = true
 		case "sleep":
 			time.Sleep(time.Duration(ev.Ms) * time.Millisecond)
+		case "touch":
+			// another process creates (exclusively) the output-dir file with revision
+			// ev.ID of the current file name while the router is idle
+			body, _ := base64.StdEncoding.DecodeString(ev.Body)
+			name := strings.Replace(f.currentFilename(), "<REV>", fmt.Sprintf("-%06d", ev.ID), -1)
+			p := filepath.Join(opts.OutputDir, name)
+			tf, err := os.OpenFile(p, os.O_WRONLY|os.O_CREATE|os.O_EXCL, 0o644)
+			if err == nil {
+				tf.Write(body)
+				tf.Sync()
+				tf.Close()
+			}
+			mk.emit(map[string]interface{}{"m": "TOUCHED", "i": i, "name": name, "ok": err == nil})
 		case "settle":
 		}
 		settle()
